@@ -243,6 +243,13 @@ def regen_all():
     except Exception as e:
         notes.append("numtab: %s" % (str(e)[:300],))
     try:
+        import globals as globals_tab
+        info = buildimpl.build("plain")
+        with Lock(os.path.join(SCRATCH, "lake.lock")):
+            globals_tab.write(info["src"])
+    except Exception as e:
+        notes.append("globals: %s" % (str(e)[:300],))
+    try:
         import parsertab
         with Lock(os.path.join(SCRATCH, "lake.lock")):
             parsertab.generate()
@@ -265,7 +272,22 @@ def proof_stage(rep, prop_module, extra_targets=("nmdrv",), search=None, require
         ok = False
         rep.cov["discharged"] = 0
         errs = [l for l in out.split("\n") if "error" in l][:20]
-        broken = "lake build %s failed:\n%s" % (prop_module, "\n".join(errs) or out[-3000:])
+        # name the theorems whose proofs no longer check: the nearest `theorem` above each error position
+        names = []
+        for l in errs:
+            mm = re.search(r"error: (\S+\.lean):(\d+):\d+", l)
+            if mm:
+                try:
+                    src_lines = open(os.path.join(LEAN, mm.group(1))).read().split("\n")[:int(mm.group(2))]
+                    for sl in reversed(src_lines):
+                        m2 = re.match(r"\s*(?:private\s+)?(?:theorem|lemma|def|example)\s+(\S+)?", sl)
+                        if m2:
+                            nm = "%s: %s" % (mm.group(1), m2.group(1) or "example")
+                            if nm not in names: names.append(nm)
+                            break
+                except OSError:
+                    pass
+        broken = "lake build %s failed; proof obligations that no longer check: %s\n%s" % (prop_module, ", ".join(names) or "(see errors)", "\n".join(errs) or out[-3000:])
     else:
         hits = forbidden_scan([prop_module])
         rc2, out2, axs, missing = audit_axioms(prop_module, thms)
